@@ -40,12 +40,12 @@ HARNESSES = {
         ("c08_conv_shape", "qt", 900, False, "Convolution::create announces the standard output shape for all ic<=3,f<=2,ih,iw<=64,k<=8,s<=4,p<=3,d<=3 whose effective kernel fits"),
         ("c08_deconv_shape", "qt", 900, False, "Deconvolution::create announces (i-1)s+k-2p for all ih,iw<=64,k<=8,s<=4,p<=3"),
         ("c08_pool_shape", "qt", 900, False, "Maxpool::create announces (i-k)/s+1 for all ih,iw<=64,k<=8,s<=4"),
-        ("c08_flat_accept_conv", "qt", 900, True, "Convolution::create(Single(n)), n<=4096: accepted => n=r*r read as 1xrxr"),
-        ("c08_flat_accept_deconv", "qt", 900, True, "Deconvolution::create(Single(n)), n<=4096: accepted => n=r*r read as 1xrxr"),
-        ("c08_flat_accept_pool", "qt", 900, True, "Maxpool::create(Single(n)), n<=4096: accepted => n=r*r read as 1xrxr"),
-        ("c08_square_accepted_conv", "qt", 900, False, "Convolution::create(Single(r*r)), r<=64 is accepted (no panic reachable)"),
-        ("c08_square_accepted_deconv", "qt", 900, False, "Deconvolution::create(Single(r*r)), r<=64 is accepted"),
-        ("c08_square_accepted_pool", "qt", 900, False, "Maxpool::create(Single(r*r)), r<=64 is accepted"),
+        ("c08_flat_accept_conv", "qt", 900, True, "Convolution::create(Single(n)), n<=2^32: accepted => n=r*r read as 1xrxr"),
+        ("c08_flat_accept_deconv", "qt", 900, True, "Deconvolution::create(Single(n)), n<=2^32: accepted => n=r*r read as 1xrxr"),
+        ("c08_flat_accept_pool", "qt", 900, True, "Maxpool::create(Single(n)), n<=2^32: accepted => n=r*r read as 1xrxr"),
+        ("c08_square_accepted_conv", "qt", 900, False, "Convolution::create(Single(r*r)), r<=4096 is accepted (no panic reachable)"),
+        ("c08_square_accepted_deconv", "qt", 900, False, "Deconvolution::create(Single(r*r)), r<=4096 is accepted"),
+        ("c08_square_accepted_pool", "qt", 900, False, "Maxpool::create(Single(r*r)), r<=4096 is accepted"),
     ],
 }
 
